@@ -125,13 +125,16 @@ func H_C10_q(shape int) {
 }
 
 // H_C10_port: carrier 0 "sip:h:D", 1 "sip:h:D;p", 2 "sip:h:D?h", 3 "sip:u@h:D",
-// 4 "sip:u:PP@h:D" (PP = two symbolic password bytes, digits included), 5 "sip:u;x:P@h:D"
+// 4 "sip:u:PP@h:D" (PP = two symbolic password bytes, digits included), 5 "sip:u;x:P@h:D",
+// 6 "sip:u@h:D;p", 7 "sip:u@h:D?x", 8 "sip:[::1]:D;p"
 func H_C10_port(carrier, d int) {
 	dig := vBytes(d)
 	vAssume(vAllDigits(dig))
 	var buf []byte
-	if carrier == 3 {
+	if carrier == 3 || carrier == 6 || carrier == 7 {
 		buf = append([]byte("sip:u@h:"), dig...)
+	} else if carrier == 8 {
+		buf = append([]byte("sip:[::1]:"), dig...)
 	} else if carrier == 4 || carrier == 5 {
 		pw := vBytes(2)
 		vAssume(vAnd(isAlnum(pw[0]), isAlnum(pw[1])))
@@ -145,9 +148,9 @@ func H_C10_port(carrier, d int) {
 	} else {
 		buf = append([]byte("sip:h:"), dig...)
 	}
-	if carrier == 1 {
+	if carrier == 1 || carrier == 6 || carrier == 8 {
 		buf = append(buf, ';', 'p')
-	} else if carrier == 2 {
+	} else if carrier == 2 || carrier == 7 {
 		buf = append(buf, '?', 'h')
 	}
 	var u PsipURI
